@@ -41,12 +41,17 @@ LabelsValid(cX, a, d) == \A i \in Frames : a[i] \in DOMAIN cX /\ Dm(i, cX[a[i]])
 (* the state k-centers starts its loop with *)
 StartState ==
   IF init = <<>> THEN [ctrIdx |-> <<>>, ctrXY |-> <<>>, asg |-> [i \in Frames |-> 0], dist |-> [i \in Frames |-> Inf]]
-  ELSE LET cs == [c \in DOMAIN init |-> pts[init[c]]]
+  ELSE LET cs == IF "initXY" \in DOMAIN Tr THEN Tr.initXY       \* init_centers that are not frames of the data
+                   ELSE [c \in DOMAIN init |-> pts[init[c]]]
            ad == AssignNearest(metric, pts, cs)
        IN [ctrIdx |-> FindCenters(ad[1], ad[2]), ctrXY |-> cs, asg |-> ad[1], dist |-> ad[2]]
 
+(* the centers of a recorded state: the frames at the recorded indices -- except that supplied initial
+   centers which are not frames of the data stay what they are (their index is that of the nearest frame) *)
+CenterOf(e, c) == IF "initXY" \in DOMAIN Tr /\ c <= Len(Tr.initXY) THEN Tr.initXY[c]
+                  ELSE IF e.ctrIdx[c] \in Frames THEN pts[e.ctrIdx[c]] ELSE <<>>
 Adopt(e) == /\ ctrIdx' = e.ctrIdx /\ asg' = e.asg /\ dist' = e.dist
-            /\ ctrXY' = [c \in DOMAIN e.ctrIdx |-> IF e.ctrIdx[c] \in Frames THEN pts[e.ctrIdx[c]] ELSE <<>>]
+            /\ ctrXY' = [c \in DOMAIN e.ctrIdx |-> CenterOf(e, c)]
 
 (* "start": state at entry of the first k-centers iteration *)
 TStart ==
@@ -77,10 +82,11 @@ TIter ==
   /\ UNCHANGED <<pts, metric, k, cut, ti, init, pc, pamvars, tid, lastCost>>
 
 SameState(e) == Bad("Result.center_indices", e.ctrIdx = ctrIdx)
-                \cup Bad("Result.centers=X[center_indices]", e.ctrXY = [c \in DOMAIN e.ctrIdx |-> IF e.ctrIdx[c] \in Frames THEN pts[e.ctrIdx[c]] ELSE <<>>])
+                \cup Bad("Result.centers=X[center_indices]", e.ctrXY = [c \in DOMAIN e.ctrIdx |-> CenterOf(e, c)])
                 \cup Bad("Result.distances", e.dist = dist)
                 \cup Bad("Result.labels", e.asg = asg)
-                \cup Bad("Result.SelfConsistent", e.ctrIdx # <<>> /\ SelfConsistentState(e.ctrIdx, e.ctrXY, e.asg, e.dist))
+                \cup Bad("Result.SelfConsistent", "initXY" \in DOMAIN Tr \/      \* (C01 speaks of centers that are frames)
+                          (e.ctrIdx # <<>> /\ SelfConsistentState(e.ctrIdx, e.ctrXY, e.asg, e.dist)))
 
 (* "kcdone": kcenters() returned *)
 TKCDone ==
@@ -91,7 +97,8 @@ TKCDone ==
                   \cup Bad("Start.labels", LabelsValid(s.ctrXY, E.asg, E.dist))
                   \cup Bad("Stop.guard(stopped although criteria not met)",
                            ~((k = 0 \/ Len(E.ctrIdx) < k) /\ SeqMax(E.dist) > cut))
-                  \cup Bad("Result.SelfConsistent", E.ctrIdx # <<>> /\ SelfConsistentState(E.ctrIdx, E.ctrXY, E.asg, E.dist)))
+                  \cup Bad("Result.SelfConsistent", "initXY" \in DOMAIN Tr \/
+                            (E.ctrIdx # <<>> /\ SelfConsistentState(E.ctrIdx, E.ctrXY, E.asg, E.dist))))
      ELSE Fail(Bad("Stop.guard(stopped although criteria not met)", ~Guard) \cup SameState(E)
                \cup Bad("TwoApprox", (init # <<>>) \/ ctrIdx = <<>> \/ N > 9 \/
                           (IF metric = "l2sq" THEN MaxD <= 4 * Opt(Len(ctrIdx)) ELSE MaxD <= 2 * Opt(Len(ctrIdx)))))
